@@ -128,6 +128,12 @@ def run(repo: Repo, chk: Check) -> None:
     chk.ob('R-TEMPLATE', oll.qualname, len(res) == 1 and vkey(res[0].value) == vkey(want), "LLo(root of the Lo hashes of the inner lists)", oll.loc,
            {'got': vrepr(res[0].value)[:300] if res else None}, what='operation_list_list_hash does not reduce the list hashes of the inner lists')
 
+    # ---- memory across calls (shared rule, sa/statelint.py) ----------------------------------------------------------------------------------
+    chk.set_clause('C31.M')
+    from ..statelint import check_memory
+    check_memory(repo, chk, ['pytezos.crypto.hash.'],
+                 'the hash returned is the one of an earlier operation list')
+
 
 class _LLHooks(MerkleHooks):
     def call(self, it, callee, args, kwargs, node):
